@@ -12,7 +12,7 @@ pub fn prop() -> Prop {
     Prop {
         id: "C19",
         level: "model_checking",
-        rule: "integers: 0, +-1, 2^k-1, 2^k, 2^k+1 for k=1..64 (both signs, clipped to [-2^63, 2^64)), 2^53+-{0,1,2}, the four range ends (~390 values), each through 10 pipeline routes (pass-through, select, sort, unique incl. neighbour pairs n/n+1, group-by, merge, split-by) and 30 non-arithmetic function routes; decimal strings: mantissas {0..12, 99, 100, 999, 10^k, 10^k-1 for k in 17..60, long digit runs} x scale {0,1,2,17,40} x exponent {none,0,+-1,+-100} x sign x spellings (leading/trailing zeros, e/E, +): all pairs over 120 (thorough 400) strings x \"+\" \"-\" \"*\" and six comparisons, plus abs, unary minus, || (value preserving, idempotent, canonical) on every string and 3-ary sums/products on a subset; non-trivial = |n| > 2^53 or a string with >= 17 digits or an exponent; distinct by construction; every integer also written on the command line (--set variable, --set macro, literal selection, literal inside --filter, inside a container literal); the ordering function of the number-as-string group (\"sort_by\" and an alias) over ~2n windows of 4-5 strings plus the whole list both ways, with one item lacking the key (and every ordered pair and window of three of 17 digit-only strings with and without leading zeros), x 8 key forms (member, parent via ^, --set variable, --set macro, set variable, defined macro, the strings themselves), compared with the stable order by exact value; every integer right after / between 9 kinds of number token that cannot be converted (a lone minus, empty exponents, a dangling point, overflowing exponents)",
+        rule: "integers: 0, +-1, 2^k-1, 2^k, 2^k+1 for k=1..64 (both signs, clipped to [-2^63, 2^64)), 2^53+-{0,1,2}, the four range ends (~390 values), each through 12 pipeline routes (csv and text fields, pass-through, select, sort, unique incl. neighbour pairs n/n+1, group-by, merge, split-by) and 30 non-arithmetic function routes; decimal strings: mantissas {0..12, 99, 100, 999, 10^k, 10^k-1 for k in 17..60, long digit runs} x scale {0,1,2,17,40} x exponent {none,0,+-1,+-100} x sign x spellings (leading/trailing zeros, e/E, +): all pairs over 120 (thorough 400) strings x \"+\" \"-\" \"*\" and six comparisons, plus abs, unary minus, || (value preserving, idempotent, canonical) on every string and 3-ary sums/products on a subset; non-trivial = |n| > 2^53 or a string with >= 17 digits or an exponent; distinct by construction; every integer also written on the command line (--set variable, --set macro, literal selection, literal inside --filter, inside a container literal); the ordering function of the number-as-string group (\"sort_by\" and an alias) over ~2n windows of 4-5 strings plus the whole list both ways, with one item lacking the key (and every ordered pair and window of three of 17 digit-only strings with and without leading zeros), x 8 key forms (member, parent via ^, --set variable, --set macro, set variable, defined macro, the strings themselves), compared with the stable order by exact value; every integer right after / between 9 kinds of number token that cannot be converted (a lone minus, empty exponents, a dangling point, overflowing exponents)",
         explanation: "integers are compared digit for digit (exact i128 on both sides after the strict reader); nas results are parsed as exact decimals and compared as rationals with num-bigint arithmetic, so the check does not depend on how jawk spells the result",
         assumptions: a,
         guards: vec!["operands-with-a-constant-fall-back", "integer-after-a-malformed-number", "integer-on-the-command-line", "nas-sort-reorders", "nas-sort-ties", "above-2^53", "u64-max", "i64-min", "neighbours-stay-distinct", "long-mantissa", "big-exponent", "spelling-variant"],
@@ -160,6 +160,29 @@ fn integers(ctx: &mut Ctx) {
         expect_rows(ctx, &Case::owned(vec!["--merge".into()], inp(format!("{d} {d}"))), "merge", n, vec![V::Arr(vec![v.clone(), v.clone()])]);
         expect_rows(ctx, &Case::owned(vec!["--split-by=.".into()], inp(format!("[{d}, {{\"a\":{d}}}]"))), "split-by", n, vec![v.clone(), V::Obj(vec![("a".into(), v.clone())])]);
         expect_rows(ctx, &Case::owned(vec!["--style=pretty".into()], inp(format!("[{d}]"))), "pretty", n, vec![V::Arr(vec![v.clone()])]);
+        // printing in the other output styles: the csv / text field is the integer digit for digit (top level and a
+        // second column), and inside a nested cell
+        for style in ["csv", "text"] {
+            let mut a = vec![format!("--output-style={style}"), "--select=.=a".into(), "--select=(get (push [] .) 0)=b".into(), "--select=(push [] .)=c".into()];
+            if style == "text" {
+                a.push("--items-seperator=;".into());
+            }
+            let case = Case::owned(a, inp(d.clone()));
+            let o = ctx.run(&case);
+            ctx.case_done();
+            ctx.trace_validated();
+            ctx.guard("integer-printed-as-a-csv-or-text-field");
+            let out = o.out_str();
+            let line = out.lines().last().unwrap_or("");
+            let fields: Vec<&str> = if style == "csv" { line.split(", ").collect() } else { line.split(';').collect() };
+            let nested = if style == "csv" { format!("\"[{d}]\"") } else { format!("[{d}]") };
+            if !o.res.is_ok() || fields.len() != 3 || fields[0] != d || fields[1] != d || fields[2] != nested {
+                ctx.outcome("integer-changed");
+                ctx.violation("integer-changed", &format!("route {style}-field: {}", if n.unsigned_abs() > (1u128 << 53) { "an integer above 2^53" } else { "a small integer" }), &[case.clone()], format!("{d}, {d}, {nested}"), o.brief());
+            } else {
+                ctx.outcome("integer-intact");
+            }
+        }
         // the integer right after a number token that cannot be converted (skipped under the default policy): nothing
         // of that token may stick to the integer
         ctx.guard("integer-after-a-malformed-number");
